@@ -162,17 +162,29 @@ func runC19Case(c *fw.Ctx, id string, cs c19Case) {
 		// every get/put/batch action is answered "region too busy" for good; Close
 		// arrives when some call has just failed for the ninth time, i.e. at the
 		// beginning of a retry back-off sleep of 16ms * 2^8 = 4.096s
+		// (the same for the two other kinds of answer that are retried with a
+		// back-off: "not serving" while the region stays online - first retry
+		// immediate, so the tenth failure - and a server-class exception that takes
+		// the connection down - two immediate retries, the eleventh failure)
 		var perOp sync.Map
+		class, at := sim.ExcTooBusy, int32(9)
+		switch cs.Seed % 3 {
+		case 1:
+			class, at = sim.ExcNSRE, 10
+		case 2:
+			class, at = sim.ExcAborted, 11
+		}
+		c.Count("long_backoff_after_"+class[strings.LastIndex(class, ".")+1:], 1)
 		cl.OnAction = func(req *sim.Request, a *sim.Action) *sim.Exc {
 			if a.OpID == "" {
 				return nil
 			}
 			v, _ := perOp.LoadOrStore(a.OpID, new(int32))
-			if atomic.AddInt32(v.(*int32), 1) == 9 && once() {
+			if atomic.AddInt32(v.(*int32), 1) == at && once() {
 				longBackoffOp.Store(a.OpID)
 				fire()
 			}
-			return &sim.Exc{Class: sim.ExcTooBusy}
+			return &sim.Exc{Class: class}
 		}
 	case "during-establish-backoff":
 		// rs1 refuses connections: the regions it hosts keep failing to be
